@@ -533,7 +533,14 @@ fn gen_root(r: &mut Rng, idx: u64, many_max: u64, force: Option<(usize, usize)>)
             want2,
         });
     }
-    let gpool = name_pool(r, "");
+    let mut gpool = name_pool(r, "");
+    // group names are free text: some are not ASCII (accented Latin, Cyrillic, CJK)
+    if r.chance(1, 3) {
+        let extra = ["Gew\u{f6}lbe", "\u{417}\u{430}\u{43b}", "\u{5927}\u{5385}_01", "Ch\u{e2}teau d'\u{ee}le"];
+        let k = r.usize(extra.len());
+        gpool.insert(0, extra[k].to_string());
+        gpool.insert(1, format!("{}_b", extra[(k + 1) % extra.len()]));
+    }
     let ng = n_of(2, r);
     let same = ng > 1 && r.chance(1, 4);
     let groups: Vec<GrpS> = (0..ng)
@@ -986,6 +993,38 @@ fn check_root_case(c: &mut Case, seed: &[u8], s: &RootSpec) {
         };
         c.count("roots_written", 1);
         c.count(&format!("roots_written|{vname}"), 1);
+        // ---- the same root into a sink that accepts short writes, and with a writer object that has seen failed writes
+        // (the sink ran full at several points of the file): same bytes as the first write
+        {
+            let max = 1 + (c.idx % 13) as usize;
+            match lib(|| {
+                let mut sink = vh_common::ShortIo::new(Cursor::new(Vec::new()), max);
+                w.write_root(&mut sink, &model, ver).map(|_| sink.inner.into_inner())
+            }) {
+                Ok(Ok(bs)) => {
+                    c.count("roots_written_through_short_writes", 1);
+                    agg.check("write-depends-on-sink", "root", "short-writes", vi, bs == b1, || (format!("write_root into a sink that accepts at most {max} bytes per call produced {} bytes, into a cursor {} (first difference at {})", bs.len(), b1.len(), vh_common::first_diff(&bs, &b1)), json!({"max_per_write": max})));
+                }
+                Ok(Err(e)) => agg.check("write-depends-on-sink", "root", "short-writes-error", vi, false, || (format!("write_root fails on a sink that accepts short writes: {e}"), json!({}))),
+                Err(p) => agg.check("root-write-panic", &p.sig(), "-", vi, false, || (format!("write_root panicked: {}", p.msg), json!({"file": p.file}))),
+            }
+            let mut failed = 0u64;
+            for k in 1..=9usize {
+                let mut sink = vh_common::FailAfter::new(b1.len() * k / 10);
+                if let Ok(Err(_)) = lib(|| w.write_root(&mut sink, &model, ver)) {
+                    failed += 1;
+                }
+            }
+            c.count("root_writes_failed_by_full_sink", failed);
+            match lib(|| {
+                let mut cur = Cursor::new(Vec::new());
+                w.write_root(&mut cur, &model, ver).map(|_| cur.into_inner())
+            }) {
+                Ok(Ok(b)) => agg.check("write-depends-on-writer-history", "root", "after-failed-writes", vi, b == b1, || (format!("after {failed} failed write_root calls the same WmoWriter writes {} bytes for the same root, a fresh one {} (first difference at {})", b.len(), b1.len(), vh_common::first_diff(&b, &b1)), json!({"failed_writes": failed}))),
+                Ok(Err(e)) => agg.check("write-depends-on-writer-history", "root", "after-failed-writes-error", vi, false, || (format!("write_root fails after earlier failed writes: {e}"), json!({}))),
+                Err(p) => agg.check("root-write-panic", &p.sig(), "-", vi, false, || (format!("write_root panicked: {}", p.msg), json!({"file": p.file}))),
+            }
+        }
 
         // ---- independent walker: framing, header counts, string tables
         let (cks, ferr) = walk(&b1, 0, b1.len(), ROOT_MAGICS);
